@@ -1,6 +1,6 @@
 //! C07: compilation is deterministic.
 //!
-//! request : C07.repeat \t <dx|vk|vkba|msl> \t <all|nopipeline> \t <gen:<seed> | clash:<seed> | share:<seed> | fix3:<seed> | inline:<seed> | cycle:<seed> | disk:<root>|<entry>
+//! request : C07.repeat \t <dx|vk|vkba|msl> \t <all|nopipeline> \t <gen:<seed> | clash:<seed> | share:<seed> | fix3:<seed> | inline:<seed> | cycle:<seed> | wave:<seed> | disk:<root>|<entry>
 //!                                                                  | diag:<family>:<seed> | src:<hex of the source>>
 //! observe : digest of sources + stages + metadata + pipeline state, or of the fully rendered diagnostic
 //!           (message, file, line, column, source excerpt, notes) followed by `|<stage>/<error variant>`
@@ -15,6 +15,8 @@ use crate::util::*;
 mod diag;
 #[path = "c07_cycle.rs"]
 mod cycle;
+#[path = "c07_wave.rs"]
+mod wave;
 
 /// One input of the property: files on disk or in memory, and whether the layout check is requested
 struct Input {
@@ -55,6 +57,9 @@ fn source_of(id: &str) -> Option<Input> {
     } else if let Some(seed) = id.strip_prefix("cycle:") {
         let seed: u64 = seed.parse().ok()?;
         Some(mem(cycle::cycle_program(&mut Rng::new(seed)).0))
+    } else if let Some(seed) = id.strip_prefix("wave:") {
+        let seed: u64 = seed.parse().ok()?;
+        Some(mem(wave::wave_program(&mut Rng::new(seed)).0))
     } else if let Some(seed) = id.strip_prefix("share:") {
         let seed: u64 = seed.parse().ok()?;
         Some(mem(share_program(&mut Rng::new(seed))))
@@ -67,12 +72,81 @@ fn source_of(id: &str) -> Option<Input> {
     } else if let Some(rest) = id.strip_prefix("diag:") {
         let (family, seed) = rest.split_once(':')?;
         let seed: u64 = seed.parse().ok()?;
+        if FAMILIES_CFG.contains(&family) {
+            return cfg_input(family, &mut Rng::new(seed));
+        }
         let p = diag::diag_program(family, &mut Rng::new(seed))?;
         Some(Input { disk: None, files: p.files, layout: p.layout, defines: Vec::new() })
     } else if let Some(h) = id.strip_prefix("src:") {
         Some(mem(String::from_utf8(unhex(h)?).ok()?))
     } else {
         None
+    }
+}
+
+/// Rejections that come from the CONFIGURATION of a compilation, not from the text of the entry file (coverage pass 2:
+/// `InvalidDefine` and the entry file's `FailedToFindFile` in preprocess/src/preprocess.rs were never executed)
+pub const FAMILIES_CFG: &[&str] = &["cfg_bad_define", "cfg_no_entry", "cfg_define_breaks_source"];
+
+fn cfg_input(family: &str, rng: &mut Rng) -> Option<Input> {
+    let k = rng.range(3, 6) as usize;
+    let ok_program = "RWByteAddressBuffer g_out;\n#ifndef SCALE\n#define SCALE 1\n#endif\n[numthreads(1, 1, 1)]\nvoid entry()\n{\n    g_out.Store(0, SCALE);\n}\nPipeline P\n{\n    ComputeShader = entry;\n}\n";
+    match family {
+        // k client defines that are not a `name value` line: the first one of the LIST is the one reported
+        "cfg_bad_define" => {
+            let bad: [(&str, &str); 9] = [
+                ("1BAD", "1"), ("GOOD_A", "\"unterminated"), ("GOOD_B", "a\nb"), ("", "3"), ("F(", "x"), ("GOOD_C", "/* open"),
+                ("A B", "C"), ("G(x,", "x"), ("H(x x)", "x"),
+            ];
+            let mut input = mem(ok_program.to_string());
+            // well-formed defines first (one of them given twice: the later one replaces the earlier one)
+            for i in 0..rng.below(3) {
+                input.defines.push((format!("FINE_{}", i), format!("{}", rng.below(9))));
+            }
+            if rng.chance(1, 2) {
+                input.defines.push(("SCALE".into(), "2".into()));
+                input.defines.push(("SCALE".into(), "3".into()));
+            }
+            for _ in 0..k {
+                let (n, v) = *rng.pick(&bad);
+                input.defines.push((n.to_string(), v.to_string()));
+            }
+            Some(input)
+        }
+        // no file under the entry name: k other files are there, some of them including each other
+        "cfg_no_entry" => {
+            let mut files = Vec::new();
+            for i in 0..k {
+                let name = match rng.below(3) { 0 => format!("main{}.rssl", i), 1 => format!("dir{}/main.rssl", i), _ => format!("MAIN.RSSL.{}", i) };
+                files.push((name, ok_program.to_string()));
+            }
+            Some(Input { disk: None, files, layout: false, defines: Vec::new() })
+        }
+        // well-formed client defines that make the SOURCE ill-formed in k places: the diagnostic points into the source
+        // through a macro defined in no file
+        "cfg_define_breaks_source" => {
+            let mut src = String::from("RWByteAddressBuffer g_out;\n");
+            let mut input_defines = Vec::new();
+            for i in 0..k {
+                let name = format!("CFG_{}", rng.below(1000) * 10 + i as u64);
+                match rng.below(4) {
+                    0 => { src.push_str(&format!("static int v_{} = {};\n", i, name)); input_defines.push((name, "undeclared_thing".to_string())); }
+                    1 => { src.push_str(&format!("static {} w_{} = 0;\n", name, i)); input_defines.push((name, "NoSuchType".to_string())); }
+                    2 => { src.push_str(&format!("static int a_{}[{}];\n", i, name)); input_defines.push((name, "(0 - 4)".to_string())); }
+                    _ => { src.push_str(&format!("static float3 s_{} = float3(1, 2, 3).{};\n", i, name)); input_defines.push((name, "xyzq".to_string())); }
+                }
+            }
+            src.push_str("[numthreads(1, 1, 1)]\nvoid entry()\n{\n}\nPipeline P\n{\n    ComputeShader = entry;\n}\n");
+            let mut input = mem(src);
+            // the order of the define list is part of the input; shuffle it so it differs from the order of use
+            for i in (1..input_defines.len()).rev() {
+                let j = rng.below(i as u64 + 1) as usize;
+                input_defines.swap(i, j);
+            }
+            input.defines = input_defines;
+            Some(input)
+        }
+        _ => None,
     }
 }
 
@@ -467,14 +541,17 @@ fn unescape(s: &str) -> String {
 /// the text of a generated rejected program, for the failure report
 fn program_text(id: &str) -> String {
     let id = id.strip_prefix("defs:").and_then(|r| r.split_once('|')).map(|r| r.1).unwrap_or(id);
-    if !is_diag_stream(id) && !id.starts_with("resv:") && !id.starts_with("cycle:") && !id.starts_with("fix3:") {
+    if !is_diag_stream(id) && !id.starts_with("resv:") && !id.starts_with("cycle:") && !id.starts_with("fix3:") && !id.starts_with("wave:") {
         return String::new();
     }
     match source_of(id) {
         Some(input) => {
             let mut t = String::from("; program:");
+            if !input.defines.is_empty() {
+                t = format!("; client defines (in this order): {:?}; program:", input.defines);
+            }
             for (n, f) in &input.files {
-                t.push_str(&format!(" [{}] <<{}>>", n, clip(f, if id.starts_with("cycle:") || id.starts_with("fix3:") { 6000 } else { 1500 })));
+                t.push_str(&format!(" [{}] <<{}>>", n, clip(f, if id.starts_with("cycle:") || id.starts_with("fix3:") || id.starts_with("wave:") { 6000 } else { 1500 })));
             }
             t
         }
@@ -818,7 +895,7 @@ fn run_repeat_requests(lines: &[String], out: &mut Out, hist: &mut Hist) {
         let d0 = a.digest();
         // a panic is a C08 matter; for C07 it only has to be the same panic every time
         let mut fail = None;
-        let repeats = if is_diag_stream(&id) || id.starts_with("cycle:") { 8 } else { 5 };
+        let repeats = if is_diag_stream(&id) || id.starts_with("cycle:") || id.starts_with("wave:") { 8 } else { 5 };
         for k in 1..repeats {
             let b = compile_input(&input, t, &m);
             let d = b.digest();
@@ -857,6 +934,8 @@ fn run_repeat_requests(lines: &[String], out: &mut Out, hist: &mut Hist) {
             "source=inline-descriptor-groups"
         } else if id.starts_with("cycle:") {
             "source=call-cycles"
+        } else if id.starts_with("wave:") {
+            "source=implicit-parameter-kinds"
         } else if id.starts_with("diag:") {
             "source=diagnostics-generator"
         } else if id.starts_with("src:") {
@@ -1114,11 +1193,43 @@ pub fn run(args: &Args, out: &mut Out) {
         history_lines.push(format!("C07.history\t{}", items.join("\t")));
     }
     lines.extend(history_lines);
+    // several KINDS of implicit parameters in one function on Metal (lane index / lane count / mesh output / globals):
+    // the order inside every parameter list, argument list and entry point rests on required_globals.sort() alone.
+    // Seeds from a separate generator, appended last: every request above keeps its seed
+    {
+        let mut rng4 = Rng::new(args.seed ^ 0x3a7e_c07d_0004);
+        let nwave = args.n.map(|n| (n / 5).max(2)).unwrap_or(if args.thorough() { 300 } else { 30 });
+        for _ in 0..nwave {
+            let seed = rng4.next() >> 16;
+            let (_, shape) = wave::wave_program(&mut Rng::new(seed));
+            hist.add(&format!("wave-helpers={}", shape.helpers));
+            hist.add(if shape.task { "wave-pipeline=task+mesh+pixel" } else if shape.mesh { "wave-pipeline=mesh+pixel" } else { "wave-pipeline=compute" });
+            hist.add(&format!("wave-lane-index-readers={}", shape.lane_index.min(3)));
+            hist.add(&format!("wave-lane-count-readers={}", shape.lane_count.min(3)));
+            hist.add(&format!("wave-default-arguments-reading-lane+global={}", shape.defaults.min(3)));
+            hist.add(&format!("wave-globals-initialised-from-lane-or-helper={}", shape.init_globals));
+            for t in ALL_TARGETS {
+                lines.push(format!("C07.repeat\t{}\tall\twave:{}", t.name(), seed));
+            }
+        }
+    }
+    // rejections caused by the configuration (client defines, entry file name); seeds from rng5, appended last
+    {
+        let mut rng5 = Rng::new(args.seed ^ 0x5cf6_c07d_0005);
+        for (fi, family) in FAMILIES_CFG.iter().enumerate() {
+            for j in 0..per_family {
+                let seed = rng5.next() >> 16;
+                let t = ALL_TARGETS[(fi + j as usize) % 4];
+                let mode = if j % 3 == 2 { "nopipeline" } else { "all" };
+                lines.push(format!("C07.repeat\t{}\t{}\tdiag:{}:{}", t.name(), mode, family, seed));
+            }
+        }
+    }
     run_requests(&lines, out, &mut hist);
     out.stat(&format!(
         "{{\"requests\":{},\"repeats_in_process\":\"5 (accepted-program streams) / 8 (diagnostics streams)\",\"fresh_processes\":3,\"history\":\"each item alone in a fresh process vs 4 orders of the sequence in fresh processes vs the long-running harness process\",\"diag_families\":{},\"hist\":{}}}",
         lines.len(),
-        diag::FAMILIES.len() + diag::FAMILIES_FIX3.len(),
+        diag::FAMILIES.len() + diag::FAMILIES_FIX3.len() + FAMILIES_CFG.len(),
         hist.json()
     ));
 }
